@@ -100,18 +100,19 @@ CLAIMED = {
         design="3/C14",
     ),
     "C15": dict(
-        text="Proof-partial: fetch_or_create_by_xpath/_create_by_xpath and _is_unambiguously_locatable/_derived_attributes "
-             "are modelled in Lean over the evaluator model; proved: non-locatable expressions are rejected, a single match "
-             "is returned with the tree unchanged, several matches give AmbiguousTreeError, deleting the nodes a call added "
-             "gives the old tree back (old nodes untouched), and - for paths whose prefixes are bound and whose attribute "
-             "equalities are consistent after prefix resolution - the same expression afterwards selects exactly the returned "
-             "node and a second call is a no-op (c15_created_is_selected_partial, c15_idempotent_partial; the unrestricted "
-             "statements are false for unbound prefixes, kept with counterexamples). Tie to code: the real call on generated "
-             "trees x locatable paths (relative/absolute, prefixed/unprefixed, with/without namespaces) == compiled model "
-             "(tree with identities, returned node, error class); property oracle on the implementation (re-query, second "
-             "call, old part unchanged).",
-        note=TB + "Calls run under the library's default ambient filters. Known findings: absolute path beside the root "
-             "(AssertionError), empty mapping / unbound prefix creating nodes in no namespace.",
+        text="Proof: fetch_or_create_by_xpath/_create_by_xpath and _is_unambiguously_locatable/_derived_attributes are "
+             "modelled in Lean over the evaluator model; proved: non-locatable expressions are rejected, a single match is "
+             "returned with the tree unchanged, several matches give AmbiguousTreeError, an unbound prefix is reported before "
+             "anything is created (c15_unbound_prefix_rejected), deleting the nodes a call added gives the old tree back (old "
+             "nodes untouched), and - for paths whose attribute equalities are consistent after prefix resolution, the "
+             "property's 'non-contradictory predicates' - the same expression afterwards selects exactly the returned node and "
+             "a second call is a no-op (c15_created_is_selected_noempty_partial, c15_idempotent_noempty_partial: the only extra "
+             "hypothesis is that no prefix is the empty string, which the parser never produces; counterexamples kept). Tie to "
+             "code: the real call on generated trees x locatable paths (relative/absolute, prefixed/unprefixed, 0-4 predicates, "
+             "with/without/empty/prefix-only namespaces) == compiled model (tree with identities, returned node, error class); "
+             "property oracle on the implementation (re-query, second call, old part unchanged, rejected calls change nothing).",
+        note=TB + "Calls run under the library's default ambient filters. Four findings fixed in /repo (0503582, 0e015a4, "
+             "7ceef81, d101191); none open.",
         technique="Lean 4 theorems (loop invariant of _create_by_xpath over the evaluator model) + differential correspondence",
         design="3/C15",
     ),
